@@ -306,6 +306,8 @@ class Gen:
             self.emit("%s <- %s;" % (ch, self.num()))
             self.seen_send = True
             self.emit("print(<- %s);" % ch)
+        elif r < 0.915 and d <= 1:
+            self.rootshape()
         elif r < 0.94 and self.in_fn:
             if self.o.nested_try_exit or self.try_depth_in_fn <= 1:
                 self.emit("if %s { return %s; }" % (self.cond(), self.num()))
@@ -313,6 +315,77 @@ class Gen:
                 self.emit("print(1);")
         else:
             self.emit("%s;" % self.expr())
+
+    def garbage(self):
+        g = self.fresh("g")
+        self.emit("for %s in %d.times() { let t = [\"g${%s}\", [%s], {\"k\": %s}]; }" % (g, self.r.randint(3, 40), g, g, g))
+
+    def rootshape(self):
+        """Heap values kept alive only through one particular kind of root, a burst of garbage, then a use:
+        channel buffers (open, and closed but not drained), a suspended fiber's locals, an in-flight error,
+        map keys/values, a lazy iterator chain, a bound method, a closure's captured cell."""
+        k = self.r.randrange(8)
+        n = self.num(2)
+        if not self.o.send and k in (0, 1, 2):
+            k = 4
+        if k in (0, 1):
+            ch = self.fresh("ch")
+            self.emit("let %s = chan(3);" % ch)
+            self.declare(ch, "chan")
+            self.emit("%s <- [%s, \"s${%s}\"];" % (ch, n, n))
+            self.emit("%s <- {\"k\": [%s]};" % (ch, n))
+            self.seen_send = True
+            if k == 1:
+                self.emit("%s.close();" % ch)
+            self.garbage()
+            self.emit("print(<- %s);" % ch)
+            self.emit("print((<- %s)[\"k\"]);" % ch)
+            if k == 1:
+                self.emit("print(<- %s);" % ch)
+        elif k == 2:
+            done, w = self.fresh("done"), self.fresh("w")
+            self.emit("let %s = chan(1);" % done)
+            self.declare(done, "chan")
+            self.emit("fn %s() { let keep = [\"x${%s}\", [1, 2]]; let other = chan(); %s <- keep; }" % (w, n, done))
+            self.emit("launch %s();" % w)
+            self.seen_send = True
+            self.garbage()
+            self.emit("print(<- %s);" % done)
+        elif k == 3 and self.can_try():
+            e = self.fresh("e")
+            self.emit("try { raise Error(\"m${%s}\"); } catch %s: Error {" % (n, e))
+            self.ind += 1
+            self.garbage()
+            self.emit("print(%s.message);" % e)
+            self.ind -= 1
+            self.emit("}")
+        elif k == 4:
+            m = self.fresh("m")
+            self.emit("let %s = {\"a${%s}\": [%s], [1]: \"v${%s}\"};" % (m, n, n, n))
+            self.garbage()
+            self.emit("print(%s[\"a${%s}\"]);" % (m, n))
+            self.emit("print(%s.len());" % m)
+        elif k == 5:
+            it = self.fresh("it")
+            self.emit("let %s = [1, 2, 3].iter().map(|x| \"v${x + %s}\").filter(|x| x != \"\");" % (it, n))
+            self.garbage()
+            self.emit("print(%s.list());" % it)
+        elif k == 6 and self.classes and self.o.classes:
+            cname, methods, fields = self.r.choice(self.classes)
+            if methods:
+                mname, ar = self.r.choice(methods)
+                b = self.fresh("b")
+                self.emit("let %s = %s().%s;" % (b, cname, mname))
+                self.garbage()
+                self.emit("print(%s(%s));" % (b, ", ".join(self.num(2) for _ in range(ar))))
+            else:
+                self.emit("print(%s);" % n)
+        else:
+            c, f = self.fresh("c"), self.fresh("f")
+            self.emit("fn %s() { let cell = [\"c${%s}\"]; return || cell; }" % (c, n))
+            self.emit("let %s = %s();" % (f, c))
+            self.garbage()
+            self.emit("print(%s());" % f)
 
     def fundecl(self, d, method=False, name=None):
         name = name or self.fresh("f")
